@@ -216,6 +216,69 @@ def writer_fault_task(task):
     return None, part
 
 
+def interrupted_run_task(task):
+    """A real multi-chain `phyclone run` that is interrupted after some chains completed: the worker of one chain is
+    killed / raises once the other named chains have been handed back to the parent.  Whatever the run leaves at the
+    output path is read by the real summary commands: they must fail, or see the complete run."""
+    from vlib.harness import Partial
+
+    part = Partial()
+    tmp = tempfile.mkdtemp(prefix="verif_c20i_")
+    try:
+        rng = np.random.default_rng([task["seed"], 2021])
+        rows, samples = inputs.make_table(rng, 4, 2)
+        in_file = os.path.join(tmp, "in.tsv")
+        inputs.write_table(rows, in_file)
+        chains, victim, mode = task["chains"], task["victim"], task["mode"]
+        out = os.path.join(tmp, "out.pkl.gz")
+        log = os.path.join(tmp, "chains.log")
+        done_first = [c for c in range(chains) if c != victim][: task["completed_before"]]
+        held = [c for c in range(chains) if c != victim and c not in done_first]
+        delays = {"finish_after": {str(victim): done_first}, "die": {str(victim): mode}}
+        for h in held:
+            delays["finish_after"][str(h)] = [victim]  # never satisfied: still running when the run is interrupted
+        env = cli_env({"VERIF_CHAIN_DELAYS": json.dumps(delays), "VERIF_CHAIN_LOG": log})
+        base = ["run", "-i", in_file, "-n", "3", "-b", "1", "--num-particles", "3", "--grid-size", "11", "--seed", "7",
+                "--num-chains", str(chains), "-o", out]
+        try:
+            p = phyclone_cli(base, env, timeout=120 if held else 600)
+            rc = p.returncode
+        except subprocess.TimeoutExpired:
+            rc = "killed-by-harness"  # chains held back forever: the harness ends the interrupted run itself
+        part.count("evaluations")
+        part.count("interrupted_runs")
+        events = [l.split()[:2] for l in open(log)] if os.path.exists(log) else []
+        finished = sorted(int(c) for c, ev in events if ev == "finish")
+        if [str(victim), "die"] not in events:
+            part.inconc("interruption failpoint not reached (events %s)" % events)
+            return None, part
+        part.see("interrupt|%d chains|victim %d|%s|%d completed" % (chains, victim, mode, len(finished)))
+        if rc == 0:
+            part.violation("phyclone run exits with status 0 although one of its chains was lost",
+                           {"chains": chains, "victim": victim, "mode": mode})
+        if not os.path.exists(out):
+            part.count("interrupted_run_left_no_file")
+        else:
+            part.count("interrupted_run_left_a_file")
+            for name, args in (("map", ["map", "-i", out, "-o", os.path.join(tmp, "m.tsv"), "-t", os.path.join(tmp, "m.nwk")]),
+                               ("consensus", ["consensus", "-i", out, "-o", os.path.join(tmp, "c.tsv"), "-t", os.path.join(tmp, "c.nwk")]),
+                               ("topology-report", ["topology-report", "-i", out, "-o", os.path.join(tmp, "t.tsv")])):
+                q = phyclone_cli(args, cli_env())
+                part.count("summary_commands_on_interrupted_runs")
+                if q.returncode == 0:
+                    part.violation("%s command produced results from the trace file left by an interrupted run "
+                                   "(%d of %d chains had completed)" % (name, len(finished), chains),
+                                   {"chains": chains, "victim": victim, "mode": mode, "completed": finished,
+                                    "run_exit": rc, "file_size": os.path.getsize(out)})
+                    break
+                part.count("cli_reader_failed_as_required")
+        part.sample({"chains": chains, "victim": victim, "mode": mode, "completed_before": finished, "run_exit": rc,
+                     "left_file": os.path.exists(out)})
+    finally:
+        shutil.rmtree(tmp, ignore_errors=True)
+    return None, part
+
+
 def run(ctx):
     quick = ctx.tier == "quick"
     ctx.level = "fault_enumeration"
@@ -223,7 +286,9 @@ def run(ctx):
                 "(1 chain unclustered, 3 chains clustered; thorough adds 2 more), each read by map, consensus and "
                 "topology-report in-process; a long trace (1100 entries) at a stride of prefixes plus head and tail (quick) or "
                 "every prefix (thorough); plus real `phyclone run` processes whose final write is cut at byte N by a "
-                "failpoint (killed / ENOSPC) and read back by the real CLI; distinct = (trace, prefix length)")
+                "failpoint (killed / ENOSPC) and read back by the real CLI; plus multi-chain runs interrupted after k of n "
+                "chains completed (a chain's worker killed, or raising), whatever is left at the output path read by "
+                "the three summary commands; distinct = (trace, prefix length)")
     ctx.assumptions = ["a reader that loads the complete content from a prefix cut inside the 8-byte gzip trailer and "
                        "writes results identical to the complete file's is accepted",
                        "the trace is written by one gzip stream at the end of the run (create_main_run_output)"]
@@ -259,7 +324,12 @@ def run(ctx):
         for p in range(nparts):
             tasks.append({"kind": "prefix", "seed": ctx.seed, "chains": 1, "clustered": False, "trace": long_path,
                           "positions": pos[p::nparts], "part": p, "parts": nparts, "long": True})
-        ctx.map("checks.c20", "dispatch", wt + tasks, timeout=3000)
+        # crash points of the run as a whole: a multi-chain run interrupted after k of its chains completed
+        it = [{"kind": "interrupt", "seed": ctx.seed, "chains": ch, "victim": v, "mode": m, "completed_before": k}
+              for ch, v, m, k in ([(3, 2, "exit", 2), (3, 0, "raise", 2), (2, 1, "raise", 1), (4, 1, "exit", 1)] if quick else
+                                  [(ch, v, m, k) for ch in (2, 3, 4) for v in range(ch) for m in ("exit", "raise")
+                                   for k in range(1, ch) if m == "exit" or k == ch - 1])]
+        ctx.map("checks.c20", "dispatch", it + wt + tasks, timeout=3000)
     finally:
         shutil.rmtree(shared, ignore_errors=True)
     total = sum(sizes.values())
@@ -267,9 +337,13 @@ def run(ctx):
     ctx.exhaustive = ctx.counters.get("prefixes", 0) == total and total > 0
     if not ctx.exhaustive:
         ctx.inconc("not every prefix was visited (%d of %d)" % (ctx.counters.get("prefixes", 0), total))
+    if ctx.counters.get("interrupted_runs", 0) < 3:
+        ctx.inconc("run-level interruption failpoints not exercised")
     if ctx.counters.get("writer_faults_injected", 0) < 4:
         ctx.inconc("writer failpoints not exercised")
 
 
 def dispatch(task):
+    if task["kind"] == "interrupt":
+        return interrupted_run_task(task)
     return writer_fault_task(task) if task["kind"] == "writer" else prefix_task(task)
